@@ -1505,6 +1505,10 @@ M('C20', 'emit iterates over a tuple copy (twin)', EV,
   "        results = []\n        for _, callback, _, extra_kwargs in list(self.listeners):  # copy: a callback may (dis)connect", "        results = []\n        for _, callback, _, extra_kwargs in tuple(self.listeners):",
   None, expect='silent')
 
+M('C05', 'original defect: qr(pos_diag_R) divides the diagonal of R by its magnitude', NPC,
+  "            phase = np.where(is_zero, 1.0, r_diag / np.where(is_zero, 1.0, r_abs))", "            phase = r_diag / np.abs(r_diag)",
+  'FACT-unit-phase')
+
 # ---------------------------------------------------------------- C16 / C19
 M('C16', 'GMRES restart: relative residual norm used for normalisation (round-3 seed b)', KRY,
   """        self.total_error.append([npc.norm(self.rs[-1]) / self.b_norm])
